@@ -81,6 +81,33 @@ fn run_program(program: &Program, job: &Value) -> Value {
     }
 }
 
+fn op_to_json(op: &Operation) -> Value {
+    let dbg = format!("{op:?}");
+    let name = dbg.split('(').next().unwrap().to_string();
+    match op {
+        Operation::Push(v) => json!({"name": "Push", "imm": v.as_int().to_string()}),
+        Operation::Assert(c) => json!({"name": "Assert", "imm": c.to_string()}),
+        Operation::U32assert2(c) => json!({"name": "U32assert2", "imm": c.as_int().to_string()}),
+        _ => json!({"name": name}),
+    }
+}
+
+fn block_to_json(b: &CodeBlock) -> Value {
+    match b {
+        CodeBlock::Span(s) => {
+            let ops: Vec<Value> = s.op_batches().iter().flat_map(|b| b.ops().iter().map(op_to_json)).collect();
+            let decs: Vec<Value> = s.decorators().iter().map(|(i, d)| json!({"at": i, "decorator": format!("{d}")})).collect();
+            json!({"kind": "span", "ops": ops, "decorators": decs})
+        }
+        CodeBlock::Join(j) => json!({"kind": "join", "first": block_to_json(j.first()), "second": block_to_json(j.second())}),
+        CodeBlock::Split(s) => json!({"kind": "split", "on_true": block_to_json(s.on_true()), "on_false": block_to_json(s.on_false())}),
+        CodeBlock::Loop(l) => json!({"kind": "loop", "body": block_to_json(l.body())}),
+        CodeBlock::Call(c) => json!({"kind": if c.is_syscall() {"syscall"} else {"call"}, "fn_hash": format!("{:?}", c.fn_hash())}),
+        CodeBlock::Dyn(_) => json!({"kind": "dyn"}),
+        CodeBlock::Proxy(_) => json!({"kind": "proxy"}),
+    }
+}
+
 fn trace_check(program: &Program, job: &Value) -> Value {
     use miden_air::{ProcessorAir, ProvingOptions, PublicInputs};
     use miden_processor::math::FieldElement;
@@ -150,6 +177,22 @@ fn main() {
                 match asm.compile(job["source"].as_str().unwrap()) {
                     Err(e) => out.push(json!({"status":"assembly_error","error": format!("{e:?}")})),
                     Ok(p) => out.push(run_program(&p, job)),
+                }
+            }
+            "assemble" => {
+                // the real assembler: source -> MAST (spans of operations, control blocks)
+                let mut asm = Assembler::default();
+                if job["stdlib"].as_bool().unwrap_or(false) {
+                    asm = asm.with_library(&miden_stdlib::StdLibrary::default()).unwrap();
+                }
+                if job["debug"].as_bool().unwrap_or(false) {
+                    asm = asm.with_debug_mode(true);
+                }
+                let r = panic::catch_unwind(panic::AssertUnwindSafe(|| asm.compile(job["source"].as_str().unwrap())));
+                match r {
+                    Err(_) => out.push(json!({"status":"panic"})),
+                    Ok(Err(e)) => out.push(json!({"status":"assembly_error","error": format!("{e:?}")})),
+                    Ok(Ok(p)) => out.push(json!({"status":"ok","root": block_to_json(p.root()), "hash": format!("{:?}", p.hash())})),
                 }
             }
             "batch_ops" => {
